@@ -47,13 +47,23 @@ func (this *C40Encoder) encode(context *EncoderContext) error {
 			// A backtrack removes the values of the character that is last in the buffer at
 			// that moment. A last character of more than two values is an upper-shifted one,
 			// which takes two ASCII codewords: it cannot use the ending with one codeword free.
+			// After a backtrack the symbol may be a smaller one: the free codewords are counted again, the way
+			// c40HandleEOD will count them.
 			if (len(buffer)%3) == 2 && available != 2 {
 				_, buffer, removed = this.backtrackOneCharacter(context, buffer, removed, lastCharSize)
 				charSizes = charSizes[:len(charSizes)-1]
+				available, e = c40Available(context, buffer)
+				if e != nil {
+					return gozxing.WrapWriterException(e)
+				}
 			}
 			for (len(buffer)%3) == 1 && (charSizes[len(charSizes)-1] > 2 || available != 1) {
 				_, buffer, removed = this.backtrackOneCharacter(context, buffer, removed, charSizes[len(charSizes)-1])
 				charSizes = charSizes[:len(charSizes)-1]
+				available, e = c40Available(context, buffer)
+				if e != nil {
+					return gozxing.WrapWriterException(e)
+				}
 			}
 			break
 		}
@@ -82,6 +92,17 @@ func (this *C40Encoder) backtrackOneCharacter(context *EncoderContext,
 	lastCharSize, removed = this.encodeChar(c, removed)
 	context.ResetSymbolInfo() //Deal with possible reduction in symbol size
 	return lastCharSize, buffer, removed
+}
+
+// c40Available counts the codewords left free in the smallest symbol that holds what is written so far plus
+// the complete triplets of buffer.
+func c40Available(context *EncoderContext, buffer []byte) (int, error) {
+	count := context.GetCodewordCount() + (len(buffer)/3)*2
+	e := context.UpdateSymbolInfoByLength(count)
+	if e != nil {
+		return 0, e
+	}
+	return context.GetSymbolInfo().GetDataCapacity() - count, nil
 }
 
 func c40WriteNextTriplet(context *EncoderContext, buffer []byte) []byte {
